@@ -197,7 +197,9 @@ class Monitor:
                     # tick may belong to either side of that boundary (the statement does not order events inside one tick)
                     self.pause["ambiguous"] |= set(writers)
                 if self.pause_events.get(ob["n"], 0) >= 1:
-                    # another Pause executed during the paused period: "the most recent Pause" may mean this one
+                    # another Pause executed during the paused period: "the most recent Pause" may mean this one; a register a
+                    # command wrote in this very tick may have been written before or after that Pause executed
+                    self.pause["ambiguous"] |= set(writers)
                     self.alt.append(dict(self.prev_out))
                     if not self.pause["double"]:
                         self.pause["double"] = True
